@@ -460,8 +460,10 @@ class ndarray(object):
         else:
             vshape, vflat = _discover(value)
         if scalar and vshape != () and not isinstance(value, ndarray):
-            if kind in 'if':
+            if kind == 'f':
                 raise ValueError("setting an array element with a sequence.")
+            if kind == 'i':
+                raise TypeError("int() argument must be a string, a bytes-like object or a real number, not 'list'")
             if kind != 'O':
                 raise ModelGap("sequence assigned to a scalar position of a %s array" % kind)
         vals = _broadcast_flat(vshape, vflat, rshape)
